@@ -177,6 +177,9 @@ func parseString(path, content string, includeDirs []string) (*Thrift, error) {
 
 func (p *parser) parse() (err error) {
 	root := p.AST()
+	if root == nil && len(p.Buffer) == 0 {
+		return nil // the empty document: no headers, no definitions
+	}
 	if root == nil || root.pegRule != ruleDocument {
 		return errors.New("not document")
 	}
